@@ -38,6 +38,12 @@ Theorem C13_accepted : forall a x, in_states (life x) (allowed a) = true ->
 Proof. exact guard_accepts_not_rt. Qed.
 Print Assumptions C13_accepted.
 
+(* a lookup that was allowed to begin and had to wait (another task is generating the resource) is not refused when
+   it is resumed, whatever the state of the context by then: during teardown lookups stay allowed *)
+Theorem C13_pending_lookup_not_refused : forall tok x, snd (local_step (AGetEnd tok) x) <> Err RuntimeErr.
+Proof. exact pending_lookup_never_refused. Qed.
+Print Assumptions C13_pending_lookup_not_refused.
+
 (* entered once: entering succeeds exactly from the inactive state, and the lifecycle only
    moves forward (inactive < open < closing < closed) under every operation, so no history
    re-opens a context *)
